@@ -47,6 +47,13 @@ def run(ctx):
             raws[pos] = r.choice("xA1 ") .strip() + rec[1:] if r.random() < 0.5 else "x" + rec[1:]
             if raws[pos] == rec:
                 raws[pos] = "x" + rec[1:]
+            if r.random() < 0.3:
+                # records without a name are legal (header line = the marker alone); without its marker such a header is an empty line
+                for q in range(len(raws)):
+                    if q == pos or r.random() < 0.4:
+                        lines = raws[q].split(eol)
+                        lines[0] = lines[0][:1] if q != pos else ""
+                        raws[q] = eol.join(lines)
             line = pos * L
         elif cls == "plus":
             if fmt.name != "fastq":
@@ -96,18 +103,26 @@ def run(ctx):
             return None
         return "".join(raws), line
 
-    def attempt(path, fmt, bt, lazy, k):
+    def touch(t, fmt, how):
+        """read the affected data: column by column, or the table materialised as a whole first (other code path for lazily read chunks)"""
+        if how == "whole-first" and hasattr(t, "get_data_object"):
+            t.get_data_object()
+        elif how == "tolist-first":
+            t.tolist()
+        tables.rows_of(t, list(fmt.fields))
+
+    def attempt(path, fmt, bt, lazy, k, how="columns"):
         """-> ('table', n) | ('FormatException', line) | ('error', type)"""
         try:
             rd = bnp.open(path, buffer_type=bt, lazy=lazy)
             n = 0
             if k is None:
                 t = rd.read()
-                tables.rows_of(t, list(fmt.fields))
+                touch(t, fmt, how)
                 n = len(t)
             else:
                 for chunk in rd.read_chunks(min_chunk_size=k):
-                    tables.rows_of(chunk, list(fmt.fields))
+                    touch(chunk, fmt, how)
                     n += len(chunk)
             return ("table", n)
         except FormatException as e:
@@ -147,9 +162,10 @@ def run(ctx):
                 numbers = {}
                 span = (pos * L, pos * L + L - 1)
                 for k, lazy, p, mode in configs:
-                    out = attempt(p, fmt, bt, lazy, k)
+                    how = r.choice(["columns", "columns", "whole-first", "tolist-first"])
+                    out = attempt(p, fmt, bt, lazy, k, how)
                     nt = (data, cls, pos, k, lazy, p.endswith(".gz")) if n >= 2 else None
-                    cfg = "k=%s,%s,%s" % (k, "lazy" if lazy else "eager", "gzip" if p.endswith(".gz") else "plain")
+                    cfg = "k=%s,%s,%s%s" % (k, "lazy" if lazy else "eager", "gzip" if p.endswith(".gz") else "plain", "" if how == "columns" else "," + how)
                     if out[0] == "table":
                         isolated = ""
                         if mode == "chunked" and cls in ("extra-column", "missing-column"):
